@@ -1322,6 +1322,7 @@ func c06Run(c *core.Ctx) {
 	defer c06Scratch()()
 	r := newC06Runner()
 	c06EncRun(c)
+	c06GlRun(c)
 	if c.Thorough() {
 		c06SplitRun(c, r, 6)
 		// T1: full alphabet, depth 3, every candidate replayed
@@ -1439,6 +1440,122 @@ func c06EncRun(c *core.Ctx) {
 	}
 }
 
+// ---------------------------------------------------------------- part 4: getline var in CSV / TSV input mode
+//
+// `getline var` (from the main input, from a file) never touches the current
+// record: whatever is done before the first field access (nothing, reading $0,
+// reading NF, switching INPUTMODE off after the fields are fixed), NF, the
+// fields and $0 afterwards are those of the current record, and a field
+// assignment rebuilds $0 from them.
+
+type c06GlCase struct {
+	Part string   `json:"part"`
+	Mode string   `json:"mode"`
+	Rec  string   `json:"record"`
+	Ops  []string `json:"ops"`
+}
+
+var c06GlOps = map[string]string{
+	"rd0":   `x = $0`,
+	"nf":    `n = NF`,
+	"glv":   `r = (getline v)`,
+	"glvf":  `r = (getline v < "c06gl.txt")`,
+	"glvf2": `r = (getline w < "c06gl.txt")`,
+	"mode0": `INPUTMODE = ""`,
+}
+
+func c06GlEval(c *core.Ctx, cs c06GlCase) {
+	sep := ","
+	if cs.Mode == "tsv" {
+		sep = "\t"
+	}
+	rec := strings.ReplaceAll(cs.Rec, ",", sep)
+	next := strings.ReplaceAll("1,2,3,4", ",", sep)
+	os.WriteFile("c06gl.txt", []byte(strings.ReplaceAll("f1,f2,f3,f4,f5\ng1\n", ",", sep)), 0o644)
+	var want []string
+	if cs.Mode == "csv" {
+		rd := csv.NewReader(strings.NewReader(rec))
+		rd.LazyQuotes = true
+		want, _ = rd.Read()
+	} else {
+		want = strings.Split(rec, "\t")
+	}
+	var got []string
+	funcs := map[string]any{"o": func(s string) { got = append(got, s) }}
+	var b strings.Builder
+	b.WriteString("NR == 1 { ")
+	for _, op := range cs.Ops {
+		b.WriteString(c06GlOps[op] + "; ")
+	}
+	b.WriteString(`o(NF); o($1); o($2); o($3); o($4); o($0); $1 = "Z"; o($0); o(NF) }`)
+	prog := awk.MustParse(b.String(), funcs)
+	res := awk.Exec(prog, &interp.Config{Funcs: funcs, Stdin: strings.NewReader(rec + "\n" + next + "\n"), Vars: []string{"INPUTMODE", cs.Mode}})
+	c.Eval(1)
+	c.Add("transitions", 1)
+	sig := "getline-var:" + cs.Mode + ":" + strings.Join(cs.Ops, "+")
+	if res.Panic != "" {
+		c.Fail("panic:"+sig, cs, firstLine(res.Panic))
+		return
+	}
+	if res.Err != nil {
+		c.Fail("error:"+sig, cs, res.Err.Error())
+		return
+	}
+	f := func(i int) string {
+		if i < len(want) {
+			return want[i]
+		}
+		return ""
+	}
+	after := append([]string{"Z"}, want[1:]...)
+	exp := []string{strconv.Itoa(len(want)), f(0), f(1), f(2), f(3), rec, strings.Join(after, " "), strconv.Itoa(len(want))}
+	c.Outcome("gl " + strings.Join(got, "|"))
+	if strings.Join(got, "\x00") != strings.Join(exp, "\x00") {
+		c.Fail("record-disturbed-by-"+sig, cs, fmt.Sprintf("got NF,$1..$4,$0,$0',NF' = %q want %q", got, exp))
+	}
+}
+
+func c06GlRun(c *core.Ctx) {
+	alpha := []string{"rd0", "nf", "glv", "glvf", "glvf2", "mode0"}
+	for _, mode := range []string{"csv", "tsv"} {
+		for _, rec := range []string{"a,b", "p", "k,l,m,n,o"} {
+			for n := 1; n <= 3; n++ {
+				idx := make([]int, n)
+				for {
+					ops := make([]string, n)
+					ok := true
+					seenNF := false
+					for i, k := range idx {
+						ops[i] = alpha[k]
+						if ops[i] == "mode0" && !seenNF {
+							ok = false // the mode may only change once the record's fields are fixed
+						}
+						if ops[i] == "nf" {
+							seenNF = true
+						}
+					}
+					if ok && c.Mine() && !c.Expired() {
+						c.Add("states", 1)
+						c06GlEval(c, c06GlCase{Part: "glcsv", Mode: mode, Rec: rec, Ops: ops})
+					}
+					k := n - 1
+					for k >= 0 {
+						idx[k]++
+						if idx[k] < len(alpha) {
+							break
+						}
+						idx[k] = 0
+						k--
+					}
+					if k < 0 {
+						break
+					}
+				}
+			}
+		}
+	}
+}
+
 func c06Replay(c *core.Ctx, raw json.RawMessage) {
 	defer c06Scratch()()
 	r := newC06Runner()
@@ -1446,6 +1563,14 @@ func c06Replay(c *core.Ctx, raw json.RawMessage) {
 		Part string `json:"part"`
 	}
 	json.Unmarshal(raw, &probe)
+	if probe.Part == "glcsv" {
+		var cs c06GlCase
+		if err := json.Unmarshal(raw, &cs); err != nil {
+			panic(err)
+		}
+		c06GlEval(c, cs)
+		return
+	}
 	if probe.Part == "enc" {
 		var cs c06EncCase
 		if err := json.Unmarshal(raw, &cs); err != nil {
@@ -1484,6 +1609,7 @@ func init() {
 			"de-duplication on the model state (one visited set for all starts), every retained history replayed, every discarded equivalent history up to depth 4 and every 20th at depth 5 replayed too " +
 			"(same model state reached another way => same dump). states = retained model states (quick: start x history pairs), transitions = histories replayed. " +
 			"Part 3: every field list of <=3 fields over 12 encoder-relevant values (CR inside/alone/trailing, quote, separator, leading space, newline, \\., tab, empty, multi-byte) assigned field by field (and via NF) in csv and tsv output mode: the rebuilt $0 must equal what print of the fields writes and (csv) encoding/csv's encoding. " +
+			"Part 4: CSV/TSV input mode, every sequence of <=3 operations over {read $0, read NF, getline v, getline v < file (twice), INPUTMODE=\"\" after NF} before the first observation x 3 records x 2 modes: NF, the fields and $0 stay those of the current record and a field assignment rebuilds $0 from them. " +
 			"Part 2: FS splitting rules on every string up to length 6 (quick 5) over 5-symbol alphabets x 8 FS values (space [also with newline in the alphabet], comma, tab, '.', '|', ab, a|ab, a*), three read orders, " +
 			"plus every ordered pair (FS when the record was read, FS assigned before the first field access) and the re-split by $0=$0; records delivered in one run per batch with RS=';'. " +
 			"distinct = distinct observed final dumps",
